@@ -5,8 +5,9 @@
 * `Msg.step` is `Sched.processMessage` seen from the one task proxy the message is addressed to:
   the same recursion (output completion, implied outputs first, backward checks, retries), with the
   pool replaced by the proxy and "removed from the pool while finished and complete" recorded in the
-  `tr` (transient) flag.  `SchedLemmasC09.pm_lookup` proves that `Sched.processMessage` acts on the
-  addressed proxy exactly as `Msg.step`, for every instance graph without self-triggering children.
+  `tr` (transient) flag.  `SchedLemmasC09.pm_sim` / `SchedLemmasC09b.pm_simP` prove that
+  `Sched.processMessage` acts on the addressed proxy exactly as `Msg.step`, for every instance graph
+  without self-triggering children.
 * `XOp` adds the op `poll` (the result of a jobs-poll command, dispatched by submit number and then
   processed by the same `process_message` with `FLAG_POLLED`) to the frozen `Sched.Op`; `stepX`/`runX` extend
   `Sched.step`/`Sched.run` conservatively (`runX_base`).
